@@ -6,7 +6,10 @@ Model of `cascade.executor.runner.runner.run` (after the `fix:` commits of C10),
 * output publication: one output -> the result itself; several outputs -> `zip(outputs, result, strict=True)`
   over the outputs in DECLARATION order, followed by the two exhaustion checks;
 * `Memory.handle` (store locally, publish if asked; publishing needs a picklable value) and `Memory.provide`;
-* `is_last_output_of`: the output whose publication the controller takes as completion of the task.
+* `is_last_output_of`: the output whose publication the controller takes as completion of the task;
+* the stateful `Memory` (`local`, `bufs`, the host's shared memory; `provide`, `handle`, `flush`, `pop`) and
+  `entrypoint.execute_sequence` over a `TaskSequence` of several tasks (`Mem`, `runM`, `execSeq`): a consumer later in
+  the sequence reads what a producer earlier in the sequence stored in `local`, published or not.
 -/
 import EkwVerif.Model.Lower
 
@@ -23,6 +26,7 @@ inductive Err where
   | moreResults      -- zip(strict): outputs exhausted first
   | notIterator      -- assert_iter_empty(result) on an iterable that is not an iterator
   | unpicklable      -- Memory.handle(publish) on a value cloudpickle refuses
+  | corrupted        -- Memory.provide: "internal data corruption" (a buffer is held but the local value is gone)
   deriving DecidableEq, Repr
 
 /-- what the callable does when invoked -/
@@ -30,7 +34,9 @@ inductive Result where
   | raises
   | value (v : Val)             -- a plain (non-iterable) value
   | gen (ys : List Val)         -- a generator yielding `ys`
-  | lst (ys : List Val)         -- an iterable that is not an iterator (list, tuple)
+  | genRaise (ys : List Val)    -- a generator yielding `ys` and then raising
+  | lst (self : Val) (ys : List Val)  -- an iterable that is not an iterator (list, tuple, str, ndarray): the object
+                                      -- itself (as one value) and what iterating it gives
   deriving Repr
 
 /-- the result object seen as one value (single-output path) -/
@@ -38,7 +44,8 @@ def Result.asVal : Result → Val
   | .raises => .none
   | .value v => v
   | .gen _ => .obj "generator"
-  | .lst _ => .obj "list"
+  | .genRaise _ => .obj "generator"
+  | .lst self _ => self
 
 /-! ### argument assembly -/
 
@@ -105,6 +112,13 @@ def afterZipLst : Option Err → Option Err
   | none => some .notIterator
   | e => e
 
+/-- a generator that raises after its last value: where `zip(strict)` would have seen `StopIteration` (both
+exhausted, or the result first) the generator's exception propagates instead -/
+def afterGenRaise : Option Err → Option Err
+  | none => some .callableRaised
+  | some .fewerResults => some .callableRaised
+  | e => e
+
 /-- the part of `run` from the call on: the callable's behaviour `res` against the declared outputs -/
 def store (pub : String → Bool) (outs : List String) (res : Result) : List Handled × Option Err :=
   match res with
@@ -120,7 +134,8 @@ def store (pub : String → Bool) (outs : List String) (res : Result) : List Han
       | .raises => ([], some .callableRaised)
       | .value _ => ([], some .notIterable)
       | .gen ys => bindOutputs pub outs ys
-      | .lst ys => ((bindOutputs pub outs ys).1, afterZipLst (bindOutputs pub outs ys).2)
+      | .genRaise ys => ((bindOutputs pub outs ys).1, afterGenRaise (bindOutputs pub outs ys).2)
+      | .lst _ ys => ((bindOutputs pub outs ys).1, afterZipLst (bindOutputs pub outs ys).2)
 
 structure RunOut where
   received : Option (List Val × List (String × Val))     -- what the callable was invoked with (if it was)
@@ -169,5 +184,105 @@ def isLastOutputOf (outs : List String) (o : String) : Option Bool :=
   match outs.getLast? with
   | none => none
   | some l => some (l = o)
+
+/-! ### the stateful `Memory` and `execute_sequence` -/
+
+/-- `runner.memory.Memory` of one worker together with the shared memory of its host. Dicts whose order does not
+matter are association lists with the most recent assignment first (`List.lookup` finds it). -/
+structure Mem where
+  loc : List (Ds × Val)      -- `self.local`
+  bufs : List Ds             -- keys of `self.bufs` (buffers fetched from shared memory and still held)
+  shm : List (Ds × Val)      -- shared memory (`shm_client.allocate` / `get`)
+  deriving Repr
+
+def Mem.empty : Mem := ⟨[], [], []⟩
+
+/-- what `Memory.provide` can find: the local value, else the one in shared memory -/
+def Mem.find (m : Mem) (ds : Ds) : Option Val :=
+  match m.loc.lookup ds with
+  | some v => some v
+  | none => m.shm.lookup ds
+
+/-- `Memory.provide(inputId, annotation)` -/
+def Mem.provide (m : Mem) (ds : Ds) : Except Err (Mem × Val) :=
+  match m.loc.lookup ds with
+  | some v => .ok (m, v)
+  | none =>
+    if m.bufs.contains ds then .error .corrupted
+    else
+      match m.shm.lookup ds with
+      | none => .error .missingInput
+      | some v => .ok ({ m with loc := (ds, v) :: m.loc, bufs := ds :: m.bufs }, v)
+
+/-- `Memory.handle(outputId, schema, value, isPublish)`: the local store happens first and unconditionally; the
+publication needs a picklable value (otherwise the exception leaves the local value behind) -/
+def Mem.handle (m : Mem) (ds : Ds) (v : Val) (publish : Bool) : Mem :=
+  if publish && picklable v then { m with loc := (ds, v) :: m.loc, shm := (ds, v) :: m.shm }
+  else { m with loc := (ds, v) :: m.loc }
+
+/-- `Memory.flush()`: drop the locals that are not backed by a held buffer -/
+def Mem.flush (m : Mem) : Mem := { m with loc := m.loc.filter (fun e => m.bufs.contains e.1) }
+
+/-- `Memory.pop(ds)` (on `DatasetPurge`) -/
+def Mem.pop (m : Mem) (ds : Ds) : Mem :=
+  { m with loc := m.loc.filter (fun e => e.1 ≠ ds), bufs := m.bufs.filter (fun d => d ≠ ds) }
+
+/-- `memory.provide` for every upstream parameter, in dict order, threading the memory -/
+def provideAllM (m : Mem) : List (Param × Ds) → Mem × Except Err (List (Param × Val))
+  | [] => (m, .ok [])
+  | (p, ds) :: rest =>
+    match m.provide ds with
+    | .error e => (m, .error e)
+    | .ok (m1, v) =>
+      match provideAllM m1 rest with
+      | (m2, .error e) => (m2, .error e)
+      | (m2, .ok l) => (m2, .ok ((p, v) :: l))
+
+/-- the memory after the `Memory.handle` calls `hs` of task `tid` -/
+def applyHandled (tid : String) (m : Mem) (hs : List Handled) : Mem :=
+  hs.foldl (fun m h => m.handle ⟨tid, h.output⟩ h.value h.publish) m
+
+/-- `runner.run(tid, …)` against the stateful memory -/
+def runM (tid : String) (t : Task) (edges : List Edge) (m : Mem) (pub : String → Bool) (res : Result) : Mem × RunOut :=
+  match paramSource tid edges with
+  | .error _ => (m, ⟨none, [], some .typeError⟩)
+  | .ok src =>
+    match provideAllM m src with
+    | (m1, .error e) => (m1, ⟨none, [], some e⟩)
+    | (m1, .ok ups) =>
+      if t.outputSchema.isEmpty then (m1, ⟨none, [], some .noOutputs⟩)
+      else
+        (applyHandled tid m1 (store pub t.outputSchema res).1,
+         ⟨some (ups.foldl applyUpstream (staticArgs t.staticPs, dictOfList t.staticKw)),
+          (store pub t.outputSchema res).1, (store pub t.outputSchema res).2⟩)
+
+structure SeqOut where
+  runs : List (String × RunOut)       -- the tasks that were started, in order
+  failed : Option (String × Err)      -- the `TaskFailure(task, detail)` sent, if any
+  deriving Repr
+
+/-- `entrypoint.execute_sequence(taskSequence, memory, …)`: the tasks in order; the first exception ends the sequence
+with a `TaskFailure` (and skips `memory.flush()`); otherwise `memory.flush()` at the end. `pub ds` = `ds in
+taskSequence.publish`. -/
+def execSeq (edges : List Edge) (pub : Ds → Bool) : Mem → List (String × Task × Result) → Mem × SeqOut
+  | m, [] => (m.flush, ⟨[], none⟩)
+  | m, (tid, t, res) :: rest =>
+    match runM tid t edges m (fun o => pub ⟨tid, o⟩) res with
+    | (m1, r) =>
+      match r.err with
+      | some e => (m1, ⟨[(tid, r)], some (tid, e)⟩)
+      | none =>
+        match execSeq edges pub m1 rest with
+        | (m2, s) => (m2, ⟨(tid, r) :: s.runs, s.failed⟩)
+
+/-- the same sequence described without the memory's internals: every task runs against what its predecessors in
+the sequence left behind (`memAfter`), whether they published it or not -/
+def seqSpec (edges : List Edge) (pub : Ds → Bool) : (Ds → Option Val) → List (String × Task × Result) → List (String × RunOut)
+  | _, [] => []
+  | mem, (tid, t, res) :: rest =>
+    match (run tid t edges mem (fun o => pub ⟨tid, o⟩) res).err with
+    | some _ => [(tid, run tid t edges mem (fun o => pub ⟨tid, o⟩) res)]
+    | none => (tid, run tid t edges mem (fun o => pub ⟨tid, o⟩) res) ::
+        seqSpec edges pub (memAfter tid (run tid t edges mem (fun o => pub ⟨tid, o⟩) res).handled mem) rest
 
 end EkwVerif.Runner
